@@ -9,6 +9,7 @@ package main
 import (
 	"crypto/rand"
 	"crypto/rsa"
+	"crypto/sha256"
 	"crypto/x509"
 	"encoding/base32"
 	"encoding/json"
@@ -21,6 +22,8 @@ import (
 	"strings"
 	"sync"
 	"time"
+
+	"golang.org/x/crypto/ssh"
 
 	"verif/harness/hx"
 )
@@ -61,8 +64,40 @@ func seedPEM() []byte {
 	return seedKey
 }
 
+// opKey: the operator's PEM key given to ssh-auth through its private-key option, and the
+// digest of its public side (what a client of that instance must be shown)
+var (
+	opPEMv []byte
+	opPubv hx.B
+)
+
+func opKey() ([]byte, hx.B) {
+	seedMu.Lock()
+	defer seedMu.Unlock()
+	if opPEMv == nil {
+		priv, err := rsa.GenerateKey(rand.Reader, 2048)
+		if err != nil {
+			hx.Fatal("rsa: %v", err)
+		}
+		opPEMv = pem.EncodeToMemory(&pem.Block{Type: "RSA PRIVATE KEY", Bytes: x509.MarshalPKCS1PrivateKey(priv)})
+		pk, err := ssh.NewPublicKey(&priv.PublicKey)
+		if err != nil {
+			hx.Fatal("ssh public key: %v", err)
+		}
+		h := sha256.Sum256(pk.Marshal())
+		opPubv = hx.B(h[:6])
+	}
+	return opPEMv, opPubv
+}
+
 // spawn runs one child; killAfter >= 0: kill it that many ms after it reported ready.
 func spawn(job Job, dir, tag string, killAfter int) (*ChildObs, string) {
+	for _, sv := range job.Services {
+		if sv == "ssh-authk" {
+			k, _ := opKey()
+			job.OpKey = string(k)
+		}
+	}
 	jp := filepath.Join(dir, tag+".job.json")
 	job.Out = filepath.Join(dir, tag+".obs.json")
 	if killAfter >= 0 {
@@ -180,7 +215,8 @@ var coqItem = map[string]string{
 	"ssh.private-key": "SshKey", "ftp.pemkey": "FtpKey", "ftp.pemcert": "FtpCert", "smtp.pemkey": "SmtpKey",
 	"smtp.pemcert": "SmtpCert", "ldap.pemkey": "LdapKey", "ldap.pemcert": "LdapCert", "agent.key": "AgentKey",
 }
-var coqSvc = map[string]string{"ssh": "Ssh", "ssh-auth": "Ssh", "ftp": "Ftp", "smtp": "Smtp", "ldap": "Ldap", "agent": "Agent"}
+var coqKind = map[string]string{"ssh": "KSim", "ssh2": "KSim", "ssh-auth": "KAuth", "ssh-authk": "KAuth", "ssh-jail": "KJail",
+	"ssh-proxy": "KProxy", "ftp": "KFtp", "ftp2": "KFtp", "smtp": "KSmtp", "smtp2": "KSmtp", "ldap": "KLdap", "ldap2": "KLdap", "agent": "KAgent"}
 
 func coqOptB(b *hx.B) string {
 	if b == nil {
@@ -218,18 +254,21 @@ func coqCase(id int, in Input, ob Obs) string {
 	for i, r := range ob.Runs {
 		var cfg, pub, seen []string
 		for _, s := range in.Runs[i] {
-			cfg = append(cfg, coqSvc[s])
+			opt := "(@None bytes)"
+			if s == "ssh-authk" {
+				_, d := opKey()
+				opt = "(Some " + hx.CoqBytes(d) + ")"
+			}
+			cfg = append(cfg, fmt.Sprintf("mkInst %s %s", coqKind[s], opt))
+			seen = append(seen, hx.CoqBytes(r.Seen[s]))
 		}
 		for _, it := range kvItems {
 			if o, ok := r.KV[it.Name]; ok && o.Present && o.Pub != nil {
 				pub = append(pub, fmt.Sprintf("(%s, %s)", coqItem[it.Name], hx.CoqBytes(o.Pub)))
 			}
-			if v, ok := r.Seen[it.Name]; ok {
-				seen = append(seen, fmt.Sprintf("(%s, %s)", coqItem[it.Name], hx.CoqBytes(v)))
-			}
 		}
-		runs = append(runs, fmt.Sprintf("mkRun %s %s %s %s %s %s %s", hx.CoqList(cfg, "svc"), hx.CoqBytes(r.Token),
-			hx.CoqN(uint64(r.TokenSeen)), coqDisk(&r), hx.CoqList(pub, "(item * bytes)"), hx.CoqList(seen, "(item * bytes)"), coqBad(&r)))
+		runs = append(runs, fmt.Sprintf("mkRun %s %s %s %s %s %s %s", hx.CoqList(cfg, "inst"), hx.CoqBytes(r.Token),
+			hx.CoqN(uint64(r.TokenSeen)), coqDisk(&r), hx.CoqList(pub, "(item * bytes)"), hx.CoqList(seen, "bytes"), coqBad(&r)))
 	}
 	d0 := ob.Disk0
 	if d0 == nil {
@@ -247,23 +286,46 @@ func genToken(r *hx.Rand) string { return xidEnc.EncodeToString(r.Bytes(12)) }
 
 func bp(s string) *hx.B { b := hx.B(s); return &b }
 
-var allSvcs = []string{"ssh", "ftp", "smtp", "ldap", "agent"}
+var allSvcs = []string{"ssh", "ssh2", "ssh-auth", "ssh-authk", "ssh-jail", "ssh-proxy", "ftp", "ftp2", "smtp", "smtp2", "ldap", "ldap2", "agent"}
 
+// genSet: a random set of service instances: any of the four ssh service types (ssh-auth
+// with and without the private-key option, a second ssh-simulator), ftp/smtp/ldap each
+// possibly twice, the agent listener
 func genSet(r *hx.Rand, min int) []string {
 	for {
 		var s []string
-		for _, x := range allSvcs {
-			if r.Chance(1, 2) {
-				if x == "ssh" && r.Chance(1, 3) {
-					x = "ssh-auth"
-				}
+		for _, x := range []string{"ssh", "ssh2", "ssh-auth", "ssh-authk", "ssh-jail", "ssh-proxy"} {
+			if r.Chance(1, 3) {
 				s = append(s, x)
 			}
+		}
+		for _, x := range []string{"ftp", "smtp", "ldap"} {
+			if r.Chance(1, 2) {
+				s = append(s, x)
+				if r.Chance(1, 3) {
+					s = append(s, x+"2")
+				}
+			}
+		}
+		if r.Chance(1, 2) {
+			s = append(s, "agent")
 		}
 		if len(s) >= min {
 			return s
 		}
 	}
+}
+
+func dedup(xs []string) []string {
+	seen := map[string]bool{}
+	var out []string
+	for _, x := range xs {
+		if !seen[x] {
+			seen[x] = true
+			out = append(out, x)
+		}
+	}
+	return out
 }
 
 func tokenOnly(n int) [][]string {
@@ -328,6 +390,31 @@ func generate(r *hx.Rand, tier string) []Input {
 		other := genToken(r)
 		ins = append(ins, Input{Kind: "tmp-left-history", TmpFile: bp(other[:9]), Reachable: true,
 			Runs: [][]string{{"ssh", "agent"}, genSet(r, 1), {"ssh", "ftp"}}})
+	}
+	// (1c) histories in which the OPTIONS and the number of instances vary between starts:
+	// ssh-auth with the private-key option appears and disappears next to the other ssh
+	// service types; several instances share one stored identity from the very first start
+	opts := [][][]string{
+		{{"ssh"}, {"ssh", "ssh-authk"}, {"ssh-authk", "ssh-jail", "ssh-proxy"}, {"ssh", "ssh-auth"}, {"ssh-jail"}},
+		{{"ssh-authk"}, {"ssh"}, {"ssh-authk", "ssh", "ssh-auth"}, {"ssh-proxy"}},
+		{allSvcs, {"ssh2", "ftp2", "smtp", "ldap2", "agent"}, {"ssh-authk", "ssh-jail", "ftp", "ftp2"}},
+		{{"ssh", "ssh2", "ftp", "ftp2", "smtp", "smtp2", "ldap", "ldap2"}, {"ssh-auth", "ssh-authk", "ftp", "smtp2"}, allSvcs},
+	}
+	if big {
+		for k := 0; k < 6; k++ {
+			var h [][]string
+			for i, n := 0, r.Range(3, 5); i < n; i++ {
+				set := genSet(r, 1)
+				if i%2 == k%2 { // the operator key comes and goes
+					set = append([]string{"ssh-authk", r.PickStr([]string{"ssh", "ssh-jail", "ssh-proxy", "ssh2"})}, set...)
+				}
+				h = append(h, dedup(set))
+			}
+			opts = append(opts, h)
+		}
+	}
+	for _, h := range opts {
+		ins = append(ins, Input{Kind: "history-options", Reachable: true, Runs: h})
 	}
 	// (2) restart histories of length 2..5 with varying service sets
 	nh := 6
